@@ -212,6 +212,10 @@ def unknown_ids(ctx, frame_try, thorough):
                 for pl in payloads[:4]:
                     body = struct.pack("!BxHHH", sub, 0, len(pl), 1 if pl else 0) + pl
                     cases.append(("0xC0 sub-type 0x%02x" % sub, 0xC0, body, None))
+                    # (the byte behind the sub-type is not described by the vendor document: an unknown sub-type may use it)
+                    for second in (0x01, 0x80, 0xFF):
+                        body = struct.pack("!BBHHH", sub, second, 0, len(pl), 1 if pl else 0) + pl
+                        cases.append(("0xC0 sub-type 0x%02x (second sub-header byte 0x%02x)" % (sub, second), 0xC0, body, None))
         for what, mid, payload, inner in cases:
             fr = real.raw_frame(mid, payload, frm=0x90 if mid == 0x1F else 0x80)
             text, res = real.read_one(fr)
